@@ -774,7 +774,7 @@ def _subst_text(text, mapping, as_test=False):
     return src(new), False
 
 
-def inline(path_events, helpers, depth=3):
+def inline(path_events, helpers, depth=3, transparent=()):
     """Replace ``sub`` events calling one of ``helpers`` (name -> list[Path]) by the helper's
     own events, with parameters substituted by the argument expressions (in operands, receivers, values,
     condition texts, constructor names and spliced parameters).  A helper path that returns a constant is only
@@ -853,12 +853,15 @@ def inline(path_events, helpers, depth=3):
                             ne.args = list(arg.args)
                             ne.kwargs = {k.arg: k.value for k in arg.keywords if k.arg}
                             ne.node = arg
-                    ne.origin = e.origin + (key,) + he.origin
+                    ne.origin = e.origin + (() if key in transparent else (key,)) + he.origin
                     ne.line = e.line
                     if he.kind == 'return':
                         ne.kind = 'subreturn'
+                    if he.kind == 'case' and key in transparent:
+                        # the dispatch of a helper is not the dispatch of the function it is spliced into
+                        ne.origin = e.origin + (key,) + he.origin
                     inl.append(ne)
-                for sub_inl in inline(inl, helpers, depth - 1):
+                for sub_inl in inline(inl, helpers, depth - 1, transparent):
                     for r in results:
                         new_results.append(r + sub_inl)
             results = new_results
